@@ -113,12 +113,20 @@ Enrich(r0) ==
        atts(el) == {E[i].att : i \in {j \in I : E[j].k = "attempt" /\ E[j].el = el}}      \* only recorded under autoretry
        last == [el \in els |-> IF atts(el) = {} THEN 1 ELSE CHOOSE a \in atts(el) : \A b \in atts(el) : b <= a]
        \* skip entries whose hook really ran
-       done(k) == \E i \in I : E[i].k = "hook" /\ E[i].name = r0.skips[k].name /\ E[i].el = r0.skips[k].el
-       skipped == {r0.skips[k].el : k \in {j \in DOMAIN r0.skips : done(j)}}
+       hits(k) == {i \in I : E[i].k = "hook" /\ E[i].name = r0.skips[k].name /\ E[i].el = r0.skips[k].el}
+       done(k) == hits(k) # {}
+       doneAt(k) == CHOOSE i \in hits(k) : \A j \in hits(k) : i <= j
+       \* a skip() called from an after_scenario hook on an enclosing element excludes only what had not started by then
+       late(k) == r0.skips[k].name = "after_scenario"
+       startedBefore(el, i) == \E j \in I : j < i /\ E[j].k = "hook" /\ E[j].el = el
+                                             /\ E[j].name \in {"before_scenario", "before_tag", "before_feature", "before_rule"}
+       covers(k, el, own) == /\ done(k)
+                             /\ r0.skips[k].target \in ((IF own THEN {el} ELSE {}) \cup anc[el])
+                             /\ (~late(k) \/ ~startedBefore(el, doneAt(k)))
    IN [prog |-> r0.prog, cfg |-> EffCfg(r0.cfg), skips |-> r0.skips, hookcl |-> r0.hookcl, events |-> r0.events, end |-> r0.end, base |-> r0.base,
        x |-> [anc |-> anc, eff |-> eff,
-              hskip |-> [el \in els |-> (({el} \cup anc[el]) \cap skipped) # {}],
-              askip |-> [el \in els |-> (anc[el] \cap skipped) # {}],
+              hskip |-> [el \in els |-> \E k \in DOMAIN r0.skips : covers(k, el, TRUE)],
+              askip |-> [el \in els |-> \E k \in DOMAIN r0.skips : covers(k, el, FALSE)],
               desc |-> [el \in els |-> {y \in els : el \in anc[y]}],
               match |-> [el \in els |-> EvalX(r0.cfg.nodes, r0.cfg.root, eff[el]) /\ (r0.cfg.wip => "wip" \in eff[el])],
               last |-> last,
@@ -483,6 +491,7 @@ C18UserLog(r) ==
    \cup (IF Ran(r) /\ ~r.cfg.cap_log /\ ~({[t |-> t, el |-> sp[1], pos |-> sp[2]] : t \in {"L", "G"}, sp \in calledPairs} \subseteq seen)
          THEN {"C18.passthrough"} ELSE {})
 \* logging: the user's own root handler and the root level are the same at every hook outside steps (driver probes)
+OutsideScen(r, i) == Ev(r, i).el = 0 \/ r.prog[Ev(r, i).el].kind # "scenario"
 C18Log(r) ==
    LET hs == {i \in Ix(r) : Ev(r, i).k = "hook" /\ ~IsStepHook(Ev(r, i))}
        \* the first hook outside scenario s after its before_scenario hook at index i (0 if none)
@@ -490,8 +499,11 @@ C18Log(r) ==
                          IF c = {} THEN 0 ELSE CHOOSE j \in c : \A k \in c : j <= k
    IN
    \* (with --logging-clear-handlers the user's handler is detached while a scenario captures: judged at the hooks outside scenarios)
+   \* (when before_all itself changes the root level -- cfg.rootlvl0 -- the level inside a capturing scenario is the
+   \*  capture handler's: judged at the hooks outside scenarios, where it must be what before_all left)
    (IF \E i, j \in hs : (~Ev(r, i).mine /\ (~r.cfg.logclear \/ Ev(r, i).el = 0 \/ r.prog[Ev(r, i).el].kind # "scenario"))
-                        \/ Ev(r, i).lvl # Ev(r, j).lvl THEN {"C18.logging_restored"} ELSE {})
+                        \/ (Ev(r, i).lvl # Ev(r, j).lvl /\ (~r.cfg.rootlvl0 \/ (OutsideScen(r, i) /\ OutsideScen(r, j) /\ Ev(r, i).name # "before_all" /\ Ev(r, j).name # "before_all")))
+    THEN {"C18.logging_restored"} ELSE {})
    \* after a scenario the root logger carries no more foreign (capture) handlers than before it
    \cup (IF \E i \in hs : Ev(r, i).name = "before_scenario" /\ nextOutside(i) # 0
                           /\ Ev(r, nextOutside(i)).nfor > Ev(r, i).nfor
